@@ -35,7 +35,7 @@ def isNewExtreme (op : Op) (newVal old : K) : Bool :=
   | .maximum => decide (old < newVal)
   | .minimum => decide (newVal < old)
   | .maxAbs => decide (absK old < absK newVal)
-  | .minAbs => decide (absK old < absK newVal)
+  | .minAbs => decide (absK newVal < absK old)
 
 /-- `extremeOf(newVal, oldExtreme)` -/
 def extremeOf (op : Op) (newVal old : K) : K := if isNewExtreme op newVal old then newVal else old
@@ -94,7 +94,7 @@ def findLastEarlier (es : List (K × K)) (t : K) : Option Nat :=
 /-- `countNumUnneededOldEntries`: `max(0, firstLater-2)` with `firstLater = -1` when there is none -/
 def countUnneeded (es : List (K × K)) (tEarliest : K) : Nat :=
   match findFirstLaterOrEq es tEarliest with
-  | some i => i - 1
+  | some i => i - 2
   | none => 0
 
 /-- number of entries kept by `removeEntriesLaterOrEq(t)`: `findLastEarlier(t)+1` -/
@@ -181,7 +181,7 @@ def diffUpdate (st : DiffSt K) (t f : K) (sameTime : Bool) : DiffSt K :=
   if sameTime then ⟨f, st.fdot, st.good, t⟩
   else
     let fd := (f - st.f) / (t - st.t0)
-    let fd' := if st.good then fd else fd
+    let fd' := if st.good then 2 * fd - st.fdot else fd
     ⟨f, fd', true, t⟩
 
 def diffRun : DiffSt K → List (K × K × Bool) → List K
